@@ -67,12 +67,12 @@ def contracts():
             ("before_stmt", "return Ok(endpoint.clone())", 1, "proof { assert(first_endpoint(*cnf, self.endpoint@, it.index@)); }")])
     cert_pre = ""
     c["Certificate::get_renew_delay"] = FnSpec(ret="r", sig="    ensures" + dur_res("self.renew_delay_src(*cnf)", THIRTY_DAYS_NS, "C14.certificate_over_endpoint_over_global_renew_delay"),
-        at=[("before_stmt", "endpoint.get_renew_delay", 1, "proof { lemma_first_unique(*cnf, self.endpoint@); }")])
+        at=[("after_stmt", "self.do_get_endpoint", 1, "proof { lemma_first_unique(*cnf, self.endpoint@); }")])
     c["Certificate::get_random_early_renew"] = FnSpec(ret="r", sig="    ensures" + dur_res("self.early_src(*cnf)", "0nat", "C14.certificate_over_endpoint_over_global_early_renew"),
-        at=[("before_stmt", "endpoint.get_random_early_renew", 1, "proof { lemma_first_unique(*cnf, self.endpoint@); }")])
+        at=[("after_stmt", "self.do_get_endpoint", 1, "proof { lemma_first_unique(*cnf, self.endpoint@); }")])
     c["Certificate::get_crt_name_format"] = FnSpec(ret="r", sig="""
     ensures match self.fmt_src(*cnf) { None => r is Err, Some(s) => r matches Ok(v) && v@ == s }, //@C14.certificate_over_endpoint_over_global_format
-""", at=[("before_stmt", "Ok(ep.get_crt_name_format", 1, "proof { lemma_first_unique(*cnf, self.endpoint@); }")])
+""", at=[("after_stmt", "self.do_get_endpoint", 1, "proof { lemma_first_unique(*cnf, self.endpoint@); }")])
     c["Certificate::get_crt_dir"] = FnSpec(ret="r", sig="""
     ensures r@ == (match self.directory { Some(d) => d@, None => match cnf.global {
                 Some(g) => (match g.certificates_directory { Some(d) => d@, None => crate::DEFAULT_CERT_DIR@ }),
